@@ -40,8 +40,16 @@ StructErrors(S, rows, msgname) ==
 
 \* segment level: seg = [row, name, table : Seq(<<fname, min, max>>), kids : Seq(fname)]
 CountField(seg, f) == Cardinality({k \in 1..Len(seg.kids) : seg.kids[k] = f})
+(* seg.extra (optional): names of children that are additional fields of an open-ended segment (last defined field of      *)
+(* type varies): they are allowed.  seg.shape (optional): <<field name, number of children of that field instance,      *)
+(* the table says it is of a base datatype>>: a base-datatype field holding more than one component has lost its          *)
+(* datatype and is reported as <<"datatype", segment, field>>.                                                            *)
 SegErrors(seg) ==
-  LET names == {seg.table[i][1] : i \in 1..Len(seg.table)} IN
+  LET names == {seg.table[i][1] : i \in 1..Len(seg.table)}
+               \cup (IF "extra" \in DOMAIN seg THEN {seg.extra[i] : i \in 1..Len(seg.extra)} ELSE {}) IN
+  (IF "shape" \in DOMAIN seg
+   THEN {<<"datatype", seg.name, seg.shape[i][1]>> : i \in {k \in 1..Len(seg.shape) : seg.shape[k][3] /\ seg.shape[k][2] > 1}}
+   ELSE {}) \cup
   {<<"missing", seg.name, seg.table[i][1]>> : i \in {k \in 1..Len(seg.table) : CountField(seg, seg.table[k][1]) < seg.table[k][2]}}
   \cup {<<"limit", seg.name, seg.table[i][1]>> : i \in {k \in 1..Len(seg.table) :
             seg.table[k][3] # Unlimited /\ CountField(seg, seg.table[k][1]) > seg.table[k][3]}}
